@@ -983,7 +983,7 @@ def main():
             print('FAIL %s\n  demand  : %s\n  observed: %s' % (key, demand, obs))
         sys.exit(1 if fails else 0)
     rng = random.Random(a.seed * 7919 + 18)
-    n = 2000 if a.tier == 'quick' else 50000
+    n = 2000 if a.tier == 'quick' else 15000
     cfgs_ok = set(ALLCFG)
     all_mism = []
 
